@@ -24,7 +24,8 @@ LEVEL_TEXT = ('Decides clauses C04-a..d and C04-f..i: each of the Fangs impls (b
               " every answer reached from a successful pattern match, before another pattern matches, names the matched node (must-alias flow of that node's referenc"
               "e through copies, re-borrows, tuples and Options), so a miss under a mount is handled by the catch that carries the mounted application's fangs. Route"
               "r::apply_fangs hands an application's fangs to every per-method tree of the router (every base::Node field of base::Router), so no method is served wi"
-              'thout them. Decides these clauses, not the order/scope across mounted applications after tree compression.')
+              "thout them. Node::apply_fangs recurses into every child: from the child iterator's Some edge the iterator is not advanced again without the recursive "
+              'call, and the iterator runs over the whole child list. Decides these clauses, not the order/scope across mounted applications after tree compression.')
 
 FANG_CHAIN = r"^ohkami::fang::Fang::chain$"
 
